@@ -61,10 +61,14 @@ def correspondence(ctx):
         dans = dict(zip(dl, common.run_model(dl)))
         for (cons, ks), line, ans in zip(jobs, lines, answers):
             m = bench.mapping(11, rng)
-            text_rank = {m[r][0]: r for r in range(11)}
+            text_rank = {t: r for r in range(11) for t, _v in bench.spellings(m[r])}
             objs = B.real_cons(bench, cons, m)
             r = rcls(constraints=objs)
-            texts = [m[k][0] for k in ks]
+            # a known version listed again is written in another spelling of the same version when the pool has one
+            texts, seen_k = [], set()
+            for k in ks:
+                texts.append(bench.alt(m[k], rng)[0] if k in seen_k else m[k][0])
+                seen_k.add(k)
             members = sum(1 for k in set(ks) if dans["contains %s %d" % (B.cons_line(cons), k)].startswith("ok:true"))
             ctx.count(stream, key=line, nontrivial=members >= 2, branch="members=%d" % min(members, 3))
             try:
@@ -79,7 +83,9 @@ def correspondence(ctx):
                 rng.shuffle(t2)
                 try:
                     out2 = r.normalize(t2)
-                    if str(out2) != str(out) or not (out2 == out):
+                    # equal ranges: the same comparators on EQUAL versions (which spelling of a version that is listed
+                    # in two spellings becomes the bound depends on the order: theorem normalize_order_and_duplicates)
+                    if not (out2 == out):
                         ctx.disagree(stream, line, str(out2), str(out), True,
                                      dict(B.describe(bench, cons, m), known=texts, clause="result depends on the order or duplication of the known versions"),
                                      spec="invariant")
